@@ -30,6 +30,8 @@ CFG = {
     'irr2': [1, 3, 4, 6, 9, 10, 12],      # second irregular subset of c12
     'far': list(range(101, 109)),         # disjoint from everything else
     'c5': list(range(1, 6)),              # minimal length
+    'trA': [1, 3, 4, 7, 9],               # trap pair: union [1,3,4,7,9,11] has as many entries as range(1,12,2)
+    'trB': [1, 3, 7, 9, 11],              # but is not that range; intersection [1,3,7,9] ~ range(1,10,2)+1
     'big': list(range(1000, 1040, 4)),    # large numbers, stride 4
 }
 
@@ -64,6 +66,8 @@ LAYOUTS_QUICK = [
     {'B|r1': 'c8'},
     {'A': 'c8'},
     {'A1|r1': 'c8'},
+    {'A|r1': 'trA'},
+    {'A|r1': 'trB'},
 ]
 LAYOUTS_MORE = [
     {'A|r1': 's3'},
